@@ -427,6 +427,21 @@ pub fn open_loop(run: &mut Run, cfg: &SCfg, t0: u64, iters: usize, clears: bool,
             }
         }
         for (p, oc, ops) in &spy.sends {
+            // C11 on what the real strategy handed to the real channel: the bytes decode to a datagram that
+            // carries this probe's sequence in the field its strategy prescribes, TTL, TOS, sizes, checksums
+            if *oc == 'o' {
+                let cell = Cell {
+                    proto: cfg.proto, strat: cfg.strat,
+                    pd: match cfg.pd { Pd::None => crate::wire_enc::Pd::None, Pd::Src(a) => crate::wire_enc::Pd::Src(a), Pd::Dest(a) => crate::wire_enc::Pd::Dest(a), Pd::Both(a, b) => crate::wire_enc::Pd::Both(a, b) },
+                };
+                let w = cfg.ccfg().wire();
+                for (kind, what) in c11_check(&w, p, Some(&cell), &parse_ops(ops)) {
+                    // the two known findings about a zero UDP checksum over IPv6 are reported by the wire component
+                    if kind == "c11-udp6-zero-checksum" { continue; }
+                    run.fail(&format!("{kind}-stack"), format!("{ctx} … probe [{}] cell {}: {what}", probe_tokens(p), cell.name()));
+                }
+                run.count("c11:stack-checked");
+            }
             truth.sent.insert(p.sequence.0, (p.ttl.0, *oc, now));
             if *oc == 'o' {
                 outstanding.push((p.clone(), parse_ops(ops)));
@@ -889,17 +904,45 @@ fn plan_path(path_len: u8, loss: u64, faults: u8) -> impl FnMut(&View<'_>, &mut 
 
 pub fn run(rng: &mut Rng, thorough: bool, _corpus: &[String]) -> Run {
     let mut run = Run::new();
-    let reps = if thorough { 15 } else { 3 };
-    for proto in ['i', 'u', 't'] {
+    // every cell of `probe_data` the builder accepts (protocol x strategy x port direction) x both families,
+    // plus unprivileged UDP; quick: one case per cell, thorough: five
+    let reps = if thorough { 5 } else { 1 };
+    let mut cell_list: Vec<(Cell, bool)> = cells(rng).into_iter().map(|c| (c, true)).collect();
+    cell_list.push((Cell { proto: 'u', strat: 'c', pd: crate::wire_enc::Pd::Src(5000) }, false));
+    cell_list.push((Cell { proto: 'u', strat: 'c', pd: crate::wire_enc::Pd::Dest(33434) }, false));
+    let mut k = 0usize;
+    for (cell, privileged) in cell_list {
         for v6 in [false, true] {
-            for k in 0..reps {
-                let cfg = gen_cfg(rng, proto, v6);
+            for _ in 0..reps {
+                k += 1;
+                let mut cfg = gen_cfg(rng, cell.proto, v6);
+                cfg.strat = cell.strat;
+                cfg.privileged = privileged;
+                cfg.pd = match cell.pd {
+                    crate::wire_enc::Pd::None => Pd::None,
+                    crate::wire_enc::Pd::Src(a) => Pd::Src(a),
+                    crate::wire_enc::Pd::Dest(a) => Pd::Dest(a),
+                    crate::wire_enc::Pd::Both(a, b) => Pd::Both(a, b),
+                };
                 let path_len = cfg.first + rng.below(6) as u8;
                 let loss = *rng.pick(&[0u64, 10, 40]);
                 let mut plan = plan_path(path_len, loss, (k % 3) as u8);
                 open_loop(&mut run, &cfg, rng.below(1000) * 1000, if thorough { 400 } else { 160 }, k % 2 == 1, &mut plan, rng);
             }
         }
+    }
+    // directed: the largest time-to-live values the builder accepts (C16: an accepted configuration runs —
+    // the channel, the strategy and the hop table of the `State` all have to cope with ttl 254)
+    for (first, max, v6, proto) in [(250u8, 254u8, false, 'i'), (254, 254, true, 'u'), (253, 254, false, 't'), (1, 254, true, 'i')] {
+        let mut cfg = gen_cfg(rng, proto, v6);
+        cfg.first = first;
+        cfg.max = max;
+        cfg.inflight = 24;
+        cfg.max_rounds = Some(3);
+        let path_len = if first == 1 { 254 } else { 255 };
+        let mut plan = plan_path(path_len, 20, 0);
+        run.count("directed:max-ttl");
+        open_loop(&mut run, &cfg, 0, if first == 1 { 900 } else { 200 }, false, &mut plan, rng);
     }
     // directed: the limits of the `State` survive `Tracer::clear` (cleared after the first round, then
     // enough rounds with changing responders to exceed the smaller limit)
